@@ -5,7 +5,7 @@
     write is one row whose tree is obtained by reparent (kept), by CommitRewriter::rebase, or
     by MergedTree::merge of given terms. *)
 From Verif Require Import Base.Prelude Model.Merge Model.TreeMerge Model.TreeCase Model.Rebase Model.C09.
-From Verif Require Import Proofs.TreeValue Proofs.C07 Proofs.C08 Proofs.C09 Proofs.MergeIdentities.
+From Verif Require Import Proofs.TreeValue Proofs.C07 Proofs.C08 Proofs.C09 Proofs.MergeIdentities Proofs.ThereBack.
 
 Section Statements.
   Context (accept : bool) (content_merge : list N -> option N).
@@ -27,6 +27,16 @@ Section Statements.
   Theorem C09_squash_partial_top_formal : forall d x s : tree,
     rebase_tree accept content_merge [x] [d] [s; x; d] = [s].
   Proof. exact (squash_partial_source_formal accept content_merge). Qed.
+
+  (** When [s - x + d] resolves instead: for a selection [x] made of whole entries of [s]
+      (at every name, at every directory level, [x] has [d]'s entry or [s]'s entry, or all
+      three are directories that differ in recursively disjoint ways), the rewritten source
+      rebased from [d] onto the new destination [x] is exactly [s] again. *)
+  Theorem C09_squash_partial_top : forall d x s : tree,
+    wf_tree x -> wf_tree s -> Disj accept d x s ->
+    rebase_tree accept content_merge [x] [d]
+      (merged_tree_merge accept content_merge [[s]; [x]; [d]]) = [s].
+  Proof. exact (squash_partial_restores accept content_merge). Qed.
 
   (** Both identities for a conflicted destination / selection of any arity. *)
   Theorem C09_squash_top_general : forall (d : list tree) (s : tree), Nat.odd (length d) = true ->
@@ -71,15 +81,9 @@ Section Statements.
   Proof. exact (descendants_keep accept content_merge tab). Qed.
 End Statements.
 
-(** The remaining part of the squash statement: when [s - x + d] resolves (instead of
-    staying a formal conflict), rebasing it back onto [x] must restore [s] — for selections
-    made of whole paths. Not proved as a theorem; checked on every run on the
-    implementation's trees (path-level and hunk-level selections). *)
-Definition C09_squash_partial_full : Prop :=
-  forall accept content_merge (d x s : tree),
-    (forall p, p <> [] -> value_at p x = value_at p d \/ value_at p x = value_at p s) ->
-    rebase_tree accept content_merge [x] [d]
-      (merged_tree_merge accept content_merge [[s]; [x]; [d]]) = [s].
+(** Outside the theorems: selections that take part of a file (hunk level); there the
+    restoration of [s] rests on the content merge (C04's domain) undoing itself. Such
+    selections are generated and checked on the implementation's trees on every run. *)
 
 Theorem C09_okb_spec : forall c : case,
   okb c = true <->
@@ -133,6 +137,7 @@ Example C09_nonvacuous :
 Proof. vm_compute. repeat split. eexists. repeat split. Qed.
 
 Print Assumptions C09_squash_top.
+Print Assumptions C09_squash_partial_top.
 Print Assumptions C09_squash_top_general.
 Print Assumptions C09_squash_partial_top_formal_general.
 Print Assumptions C09_squash_partial_top_formal.
